@@ -30,7 +30,8 @@ CHECKS = {
                 text=("hundreds (quick) to ~10k (thorough) seeded histories of the real AIOKafkaProducer with concurrent senders, "
                       "13 fault fates on Produce/Metadata, leader moves, stale metadata and sequence counters preset next to "
                       "the 2^31 wrap; every partition log, every ProduceRequest arrival and every client-side in-flight "
-                      "interval is checked after the run"),
+                      "interval is checked after the run, and the simulated broker reports a Produce frame written behind a "
+                      "still unanswered Produce of the same partition on one open connection"),
                 note=SIM_NOTE + "; N1 (no delivery after the client failed the request); broker idempotence rules of Kafka 2.x"),
     "C02": dict(ready=True, engine="simcluster", level="exploration", design_ref="DESIGN.md §6 C02",
                 technique="runtime monitoring: per-future resolution log and flush/stop return events checked against the "
@@ -46,7 +47,9 @@ CHECKS = {
                 text=("real group-less AIOKafkaConsumer over generated v0/v1/v2/mixed logs (compaction gaps, wrappers, control and "
                       "empty batches, trimmed log start) with 1-3 concurrent API tasks, leader moves and retriable fetch faults; "
                       "each returned record must be exactly the next visible one from the cursor, position() is bounded on both "
-                      "sides, paused/filtered partitions stay silent and every log is drained after the quiet point; both codec "
+                      "sides, paused/filtered partitions stay silent and every log is drained after the quiet point (in a third of "
+                      "the histories through single blocking getone() calls, with the replies of all brokers arriving on a "
+                      "common time lattice so that several fetch tasks finish in one pass); both codec "
                       "implementations (compiled one rebuilt from the working tree)"),
                 note=SIM_NOTE + "; visibility definition; reference record codec for log generation and ground truth"),
     "C04": dict(ready=True, engine="simcluster", level="fault_enumeration", design_ref="DESIGN.md §6 C04",
